@@ -73,6 +73,18 @@ def prepLine (line : String) : String :=
     match registryLookup name with
     | some d => s!"reg {name} | {hexOf d.toList}"
     | none => s!"reg {name} | none"
+  | ["regalias", i] =>
+    match specAliases[i.toNat?.getD 999]? with
+    | some (a, tg) => s!"regalias {a} {tg}"
+    | none => "skip no-such-alias"
+  | ["histall", n] =>
+    -- every datum of the (regenerated) table used by name, on ONE line: a replayable batch
+    let texts := datumTable.filterMap fun (k, _) => (namedDatumTexts k false).map (·.1)
+    s!"histall {n} | {" ".intercalate (texts.map hexOf)}"
+  | ["hist", key, kind, n] =>
+    match namedDatumTexts key (kind = "tmerc") with
+    | some (p4, w) => s!"hist {key} {kind} {n} | {hexOf p4} {hexOf w}"
+    | none => "skip datum-not-in-table"
   | _ => line
 
 /-! ## dumps (same token sequence as `dump` in harness/cmd/c20/main.go) -/
@@ -383,12 +395,13 @@ def judgeLine (line : String) : String :=
       if !known then
         (if rn = ["err"] then "OK reg-unknown" else "SPEC reg-unknown unregistered-name-accepted")
       else match r4 with
-        | "EQ" :: end_ :: edn :: "NIL" :: nnd :: "USE" :: _ =>
+        | "EQ" :: end_ :: edn :: "NIL" :: nnd :: "USE" :: _ :: _ :: _ :: _ :: _ :: _ :: "GRID" :: gn :: g =>
           if rn.head? ≠ some "ok" then "SPEC reg registered-name-rejected"
           else if rn ≠ rd then s!"SPEC reg name-and-definition-differ:{firstDiff rd rn}"
           else if end_ ≠ "t" || edn ≠ "t" then s!"SPEC reg name-not-Equal-to-definition({end_},{edn})"
           else if nnd ≠ "t" then s!"SPEC reg NewTransform(name,definition)-not-nil({nnd})"
           else if rn2 ≠ rn then s!"SPEC reg shared-definition-changed-by-use:{firstDiff rn rn2}"
+          else if let some f := gridAgree true 1.0 (gn.toNat?.getD 0) g then s!"SPEC reg name-vs-definition:{f}"
           else
             let m : Except Err (SR Float) := parse name.toList
             match cmpModel "registry" m rn with
@@ -396,6 +409,59 @@ def judgeLine (line : String) : String :=
             | none => "OK reg"
         | _ => "DIFF reg malformed-impl-line"
     | _ => "DIFF reg malformed-impl-line"
+  | ["regalias", a, tg] =>
+    -- Spec: an alias denotes the same reference as its target (Equal both ways, nil transformer, same
+    -- positions off the equator, same fields)
+    match rhs with
+    | "A" :: r1 =>
+      let (ra, r2) := takeRes r1
+      let (rt, r3) := takeRes (r2.drop 1)
+      match r3 with
+      | "EQ" :: eat :: eta :: "NIL" :: nat_ :: nta :: "GRID" :: gn :: g =>
+        if ra.head? ≠ some "ok" || rt.head? ≠ some "ok" then s!"SPEC regalias registered-name-rejected({a}:{ra.headD "?"},{tg}:{rt.headD "?"})"
+        else if let some f := gridAgree true 1.0 (gn.toNat?.getD 0) g then s!"SPEC regalias {a}-vs-{tg}:{f}"
+        else if eat ≠ "t" || eta ≠ "t" then s!"SPEC regalias {a}-not-Equal-to-{tg}({eat},{eta})"
+        else if nat_ ≠ "t" || nta ≠ "t" then s!"SPEC regalias NewTransform({a},{tg})-not-nil({nat_},{nta})"
+        else if ra ≠ rt then s!"SPEC regalias {a}-and-{tg}-differ:{firstDiff rt ra}"
+        else
+          let m : Except Err (SR Float) := parse a.toList
+          match cmpModel "alias" m ra with
+          | some d => s!"DIFF regalias {d}"
+          | none => "OK regalias"
+      | _ => "DIFF regalias malformed-impl-line"
+    | _ => "DIFF regalias malformed-impl-line"
+  | ["hist", key, kind, _, "|", hp, _] =>
+    -- history: the named-datum text parsed several times in one process; the FIRST reference is used
+    -- and re-inspected after the later parses; the WKT spells out the same shift
+    match unhex hp, rhs with
+    | some p4, "H" :: r1 =>
+      let cls := s!"hist-{kind}-{key}"
+      let (d1, r2) := takeRes r1
+      let (dl, r3) := takeRes (r2.drop 1)
+      let (dn, r4) := takeRes (r3.drop 1)
+      let (dw, r5) := takeRes (r4.drop 1)
+      match r5 with
+      | "PREV" :: prev :: "GRID" :: gn :: g =>
+        let n := gn.toNat?.getD 0
+        let g2 := (g.drop (14 * n)).drop 2
+        if d1.head? ≠ some "ok" || dw.head? ≠ some "ok" then s!"SPEC {cls} definition-rejected({d1.headD "?"},{dw.headD "?"})"
+        else if dl ≠ d1 then s!"SPEC {cls} sr-changed-by-later-parse:{firstDiff d1 dl}"
+        else if dn ≠ d1 then s!"SPEC {cls} same-text-parsed-again-differs:{firstDiff d1 dn}"
+        else if prev ≠ "0" then s!"DIFF {cls} {prev}-references-of-earlier-lines-changed(cross-line;see-histall)"
+        else if let some f := gridAgree (kind ≠ "tmerc") 1.0 n g then s!"SPEC {cls} first-parsed-vs-spelled-out-WKT:{f}"
+        else if let some f := gridAgree (kind ≠ "tmerc") 1.0 n g2 then s!"SPEC {cls} last-parsed-vs-spelled-out-WKT:{f}"
+        else
+          let m : Except Err (SR Float) := parse p4
+          match cmpModel "named" m d1 with
+          | some d => s!"DIFF {cls} {d}"
+          | none => s!"OK {cls}"
+      | _ => s!"DIFF {cls} malformed-impl-line"
+    | _, _ => "BAD hist"
+  | "histall" :: _ =>
+    match rhs with
+    | ["CHANGED", k, "OF", n, "FIRST", i] =>
+      if k = "0" then "OK histall" else s!"SPEC histall {k}-of-{n}-references-changed-by-later-parses(first:#{i})"
+    | _ => "DIFF histall malformed-impl-line"
   | ["prj", h] =>
     match unhex h, rhs with
     | some d, "S" :: r1 =>
